@@ -4,6 +4,7 @@ import (
 	"sort"
 	"bytes"
 	"encoding/json"
+	"reflect"
 	"errors"
 	"fmt"
 	"io"
@@ -490,7 +491,67 @@ func c15module(sc *c15schema, ts []c15type) (*meta.Module, string, error) {
 
 var c15reused [8]*nodeutil.JSONWtr
 
+// depth is no reason to fail: 60 and 300 nested containers, and a list entry inside each of 40 lists, compact and pretty
+func c15deep(c *core.Ctx) {
+	for _, depth := range []int{44, 60, 300} {
+		var y, d strings.Builder
+		y.WriteString("module z { namespace \"urn:z\"; prefix z; revision 2020-01-01; ")
+		d.WriteString("{")
+		for i := 0; i < depth; i++ {
+			if i%3 == 2 {
+				fmt.Fprintf(&y, "list c%d { key k; leaf k { type string; } ", i)
+				fmt.Fprintf(&d, `"c%d":[{"k":"e",`, i)
+			} else {
+				fmt.Fprintf(&y, "container c%d { ", i)
+				fmt.Fprintf(&d, `"c%d":{`, i)
+			}
+		}
+		y.WriteString("leaf x { type string; } ")
+		d.WriteString(`"x":"v"`)
+		for i := depth - 1; i >= 0; i-- {
+			y.WriteString("} ")
+			if i%3 == 2 {
+				d.WriteString("}]")
+			} else {
+				d.WriteString("}")
+			}
+		}
+		y.WriteString("}")
+		d.WriteString("}")
+		m, err := parser.LoadModuleFromString(nil, y.String())
+		if err != nil {
+			c.Violation(core.Replay{Kind: "harness", Summary: "c15deep module: " + err.Error(), NoInputFound: true})
+			return
+		}
+		for _, pretty := range []bool{false, true} {
+			c.Evaluations++
+			c.Count("deep_nesting", fmt.Sprint(depth, " pretty=", pretty))
+			c.Distinct(fmt.Sprint("deep", depth, pretty))
+			var out string
+			e := safeDo(func() error {
+				n, err := nodeutil.ReadJSON(d.String())
+				if err != nil {
+					return err
+				}
+				w := &nodeutil.JSONWtr{Pretty: pretty}
+				out, err = w.JSON(node.NewBrowser(m, n).Root())
+				return err
+			})
+			var back interface{}
+			if e == nil {
+				e = json.Unmarshal([]byte(out), &back)
+			}
+			var want interface{}
+			json.Unmarshal([]byte(d.String()), &want)
+			if e != nil || !reflect.DeepEqual(back, want) {
+				c.Violation(core.Replay{Kind: "property-failure", Class: "deep-nesting", Summary: fmt.Sprintf("%d nested levels, Pretty=%v: %v; output %s", depth, pretty, e, short(out)), Input: map[string]interface{}{"depth": depth, "pretty": pretty}})
+			}
+		}
+	}
+}
+
 func C15(c *core.Ctx) {
+	c15deep(c)
 	c.Rule = "generated schemas (every built-in leaf type incl. empty, enum, bits, identityref, union, 64-bit extremes, leaf-lists; containers, keyed lists, nodes contributed by a grouping of an imported module) × conforming trees × all 8 writer configurations (Pretty × EnumAsIds × QualifyNamespace) × start selection (root, container, list, list entry); output (i) parsed by encoding/json as exactly one value and compared with the expected RFC 7951 value, (ii) compared byte-for-byte with the Lean writer model (compact), (iii) pretty output minus insignificant white space = compact output, (iv) failing output stream at every byte position of small documents; leafref types and odd enum names as in C04; the first schema of every run holds every type once as leaf and once as leaf-list. non-trivial = document with ≥2 members and a nested container or list; distinct by (schema, tree, configuration, start)"
 	c.Assumptions = append(c.Assumptions,
 		"encoding/json (Decoder.UseNumber, one value then EOF) is the RFC 8259 reader for the byte level; the Lean theorems are on the token level plus the string codec",
